@@ -475,6 +475,43 @@ pub fn check(paths: &Paths, tier: &str) -> i32 {
     }
     samples.extend(l.samples.iter().cloned());
 
+    // ---------------- probes of the listed known findings (so that they are reported on every run) ----------------
+    {
+        let wd = WorkerDir::new(&ctx.scratch, 997);
+        wd.install_aux(&ctx.corpus_dir);
+        for f in &known.findings {
+            let probe = match f["probe"].as_str() {
+                Some(p) => paths.verif.join(p),
+                None => continue,
+            };
+            let v: Value = match std::fs::read_to_string(&probe).ok().and_then(|s| serde_json::from_str(&s).ok()) {
+                Some(v) => v,
+                None => continue,
+            };
+            if v["tier"] != "P" {
+                continue;
+            }
+            if let (Some(job), Some(p)) = (job_from_json(&ctx.corpus, &v["job"]), Perturb::from_json(&v["perturb"])) {
+                let inv = v["violation"]["invariant"].as_str().unwrap_or("");
+                let mut st = RunStats::default();
+                let got = if inv == "I5" { tierp::check_exclusion(&ctx, &wd, &job, &mut st) } else { tierp::execute(&ctx, &wd, &job, &p, &mut st) };
+                if let Some(g) = got {
+                    let sig = signature("P", &job.to_json(&ctx.corpus), &g);
+                    match known.matches(&sig) {
+                        Some(m) => {
+                            known_hits.insert(m["what"].as_str().unwrap_or("known finding").to_string());
+                        }
+                        None => {
+                            // the probe fails in a way the list does not describe: that is a new violation
+                            violations.push((sig, probe.clone()));
+                        }
+                    }
+                }
+            }
+        }
+        let _ = std::fs::remove_dir_all(&wd.root);
+    }
+
     // ---------------- regression probes: replay files of repaired findings ----------------
     let mut regressions_replayed = 0u64;
     if let Ok(rd) = std::fs::read_dir(paths.verif.join("regression")) {
